@@ -3,7 +3,10 @@ GEN = ["OrientTables"]
 VARIANT = "san"
 RULE = ("part 1: the complete orientation tables (oppositeRowOrientation 10, cellOrientationInRow 5x10, isTurn 10, "
         "pin-offset flip flags 8), exhaustive; part 2: circuits of the C01 domain with polarities; non-trivial = at least "
-        "one movable cell with a polarity and Circuit::legalize returned (see stats)")
+        "one movable cell with a polarity and Circuit::legalize returned; part 3: object histories - public mutators (setRows, "
+        "setupRows with all flag combinations, setCellX/Y/Width/Height, setCellIsFixed, setCellIsObstruction, setCellOrientation, "
+        "setCellRowPolarity, setSolution, addNet) interleaved with legalize / placeDetailed on ONE Circuit object, every observation "
+        "checked against the rows as they are now, against a freshly rebuilt circuit and against the model (see stats, counters hist_*)")
 PARTIAL = [
     "legalize_orient: PROVED in Lean for all inputs of the C01 domain over the executable legalization model "
     "(Model/Legalize.lean, the definitions drv_C01 runs; Tetris variant tetrisPerSegmentOrientation = true = tree with "
@@ -20,7 +23,9 @@ PARTIAL = [
     "which the real code throws or aborts (findings of C01/C02/C07) are counted by the oracle, not checked further",
     "the tie of both models to the real code is differential (C01/C02 streams) plus this property's own end-to-end direct "
     "oracle on Circuit::legalize / Circuit::placeDetailed (orientation checked after legalize, at every Detailed callback and "
-    "after return), bounded by the generator",
+    "after return), bounded by the generator; histories on one object (mutators between calls) are covered by the object-history "
+    "stream only (random sequences of 3-6 observations, metamorphic comparison with a freshly rebuilt circuit), not by proof: the "
+    "theorems are about single calls as pure functions of the circuit's public state",
     "proved for all inputs: the table-level theorems of Properties/C04.lean over the definitions regenerated from "
     "parameters.cpp / coloquinte.cpp on every run (totality, never UNKNOWN for a declared polarity, ANY -> keep marker, "
     "abort() unreachable, SAME/OPPOSITE never INVALID, NW/SE partition of the rows, involution / mirror facts)",
@@ -45,11 +50,17 @@ LEVEL_TEXT = ("Lean 4 theorems (a) about the orientation tables translated from 
               "correspondence streams; in addition the end-to-end clauses (after legalize, at every Detailed callback, after "
               "placeDetailed) are checked by an independent orientation oracle on the real code for random circuits of the "
               "C01 domain with all polarities, odd/even row counts and all row-orientation patterns, under ASan/UBSan with "
-              "assertions on")
+              "assertions on; an object-history stream repeats these checks along random sequences of public mutators and "
+              "legalize / placeDetailed calls on one Circuit object (several observations per object, the same one twice, "
+              "observation -> one mutator -> same observation): after every call the oracle is evaluated against rows() as they "
+              "are now, the result is compared with the same call on a freshly constructed circuit of identical observable "
+              "state (rebuilt through the public setters, so stale state kept inside the object shows), and the orientation of "
+              "every placed movable cell is compared with the model's assignedOrientation")
 LEVEL_NOTE = ("Trusted: Lean kernel (axioms propext/Classical.choice/Quot.sound only), tools/translate.py + clang AST for the "
               "generated tables, the harness's independent reading of 'row under the bottom edge', and the differential tie of "
               "the Legalize / DetPlace models to the C++ (C01/C02 streams). The algorithm clauses are proved over those "
               "models; what is not proved for all inputs is listed in partial_clauses.")
 TECHNIQUE = ("Lean 4 proof (decide over the finite translated tables; invariant proofs over the executable legalization and "
              "detailed-placement models) + exhaustive table correspondence + end-to-end direct oracle on Circuit::legalize / "
-             "Circuit::placeDetailed")
+             "Circuit::placeDetailed + object-history stream (mutators and calls interleaved on one object, metamorphic comparison with a "
+             "freshly rebuilt circuit)")
